@@ -126,10 +126,13 @@ Local(n, new, newtuns, ri, Alive(_)) ==
 \* permission rules decide; the invariants below must hold in everything they let through
 RecSmall == {r \in [peer : Nodes, tun : {1}, addr : {AddrOf[x] : x \in Nodes}, type : {"terminal", "forwarding"}, state : States,
                     lidx : 1..2, ridx : {0}] : TRUE}
+\* (candidates that the rules refuse at once -- a record change by a data packet, a forward by anything but a relayed
+\* packet -- are not proposed: they add nothing but evaluation time)
+FwdChoices(n, typ) == IF typ = "relay" THEN SUBSET (Nodes \ {n}) ELSE {{}}
 Next == \E n \in Nodes :
-           \/ \E s \in tuns[n], r \in RecSmall, typ \in {"control", "relay", "data"}, fwd \in SUBSET (Nodes \ {n}) :
+           \/ \E s \in tuns[n], typ \in {"control", "relay"}, r \in RecSmall : \E fwd \in FwdChoices(n, typ) :
                  Recv(n, s, typ, {x \in recs[n] : Key(x) # Key(r)} \cup {r}, fwd, tuns[n], IdxOf({x \in recs[n] : Key(x) # Key(r)} \cup {r}))
-           \/ \E s \in tuns[n], typ \in {"control", "relay", "data"}, fwd \in SUBSET (Nodes \ {n}) : Recv(n, s, typ, recs[n], fwd, tuns[n], IdxOf(recs[n]))
+           \/ \E s \in tuns[n], typ \in {"control", "relay", "data"} : \E fwd \in FwdChoices(n, typ) : Recv(n, s, typ, recs[n], fwd, tuns[n], IdxOf(recs[n]))
            \/ \E p \in Nodes \ {n} :
                  LET newtuns == IF p \in tuns[n] THEN tuns[n] \ {p} ELSE tuns[n] \cup {p}
                      kept == {r \in recs[n] : r.peer \in newtuns}
